@@ -357,7 +357,10 @@ def c01_mask_support(run):
     rel = "genlm/grammar/cfglm.py"
     fn = source.find(rel, "BoolCFGLM.p_next")
     run.function_under_contract("genlm.grammar.cfglm.BoolCFGLM.p_next", source.sha(fn))
-    run.function_under_contract("genlm.grammar.cfglm._CKYModel.next_token_weights", source.sha(source.find(rel, "_CKYModel.next_token_weights")))
+    try:
+        run.function_under_contract("genlm.grammar.cfglm._CKYModel.next_token_weights", source.sha(source.find(rel, "_CKYModel.next_token_weights")))
+    except KeyError:
+        pass        # no adapter class in this tree: the cky harness below reports what it finds
     for alg in ("earley", "cky"):
         name = f"C01/cfglm.BoolCFGLM.p_next/mask-is-support[{alg}]"
 
@@ -406,7 +409,7 @@ def c01_mask_support(run):
 
         try:
             results = I.explore(harness)
-        except (I.OutOfSubset, I.PyRaise) as e:
+        except (I.OutOfSubset, I.PyRaise, KeyError) as e:
             run.obligation(name, "out-of-subset", detail=str(e))
             continue
         bad = None
